@@ -190,19 +190,21 @@ theorem addCompound_eq (S : Store) (kind : Kind) (content : List Key) (readonly 
 /-- The possible outcomes of `_add_compound`. -/
 inductive CRes (S : Store) (kind : Kind) (content : List Key) (name : Option Name) (S' : Store) (k : Key) : Prop
   /-- constant folding / single child without renaming: nothing changes, `k` means the right thing in any valuation -/
-  | const : S' = S → (∀ ρ, keyVal ρ k = kind.sem content ρ) → CRes S kind content name S' k
+  | const : S' = S → (∀ ρ, keyVal ρ k = kind.sem content ρ) → (k = kind.t ∨ k = kind.f ∨ k ∈ content) →
+      CRes S kind content name S' k
   /-- single child, the child gets the name -/
   | named (n : Name) : name = some n → S' = S.addName n k .named → (∀ ρ, keyVal ρ k = kind.sem content ρ) →
-      CRes S kind content name S' k
+      k ∈ content → CRes S kind content name S' k
   /-- hash-consing hit -/
   | reuse (i : Nat) (c2 : List Key) : S' = S → k = some (i : Int) → lookup (kind.idx S) c2 = some i →
       (∀ ρ, kind.sem c2 ρ = kind.sem content ρ) → CRes S kind content name S' k
   /-- a new node -/
   | fresh (c2 : List Key) : k = some ((S.nodes.length + 1 : Nat) : Int) → Fresh kind c2 name S S' →
-      (∀ ρ, kind.sem c2 ρ = kind.sem content ρ) → CRes S kind content name S' k
+      (∀ ρ, kind.sem c2 ρ = kind.sem content ρ) → (∀ x ∈ c2, x ∈ content) → CRes S kind content name S' k
 
 theorem finishC_spec (kind : Kind) (readonly : Bool) (name : Option Name) (S : Store) (c2 content : List Key)
     (clash : Bool) (S' : Store) (k : Key) (hsem : ∀ ρ, kind.sem c2 ρ = kind.sem content ρ)
+    (hsub : ∀ x ∈ c2, x ∈ content)
     (h : finishC kind readonly name S c2 clash = .ok (S', k)) : CRes S kind content name S' k := by
   unfold finishC at h
   cases kind with
@@ -214,7 +216,7 @@ theorem finishC_spec (kind : Kind) (readonly : Bool) (name : Option Name) (S : S
     obtain ⟨rfl, rfl⟩ := h
     rcases addConjNode_spec _ _ _ _ _ _ hr with ⟨rfl, hl⟩ | ⟨rfl, hf⟩
     · exact .reuse i c2 rfl rfl hl hsem
-    · exact .fresh c2 rfl hf hsem
+    · exact .fresh c2 rfl hf hsem hsub
   | disj =>
     simp only at h
     split at h
@@ -224,14 +226,14 @@ theorem finishC_spec (kind : Kind) (readonly : Bool) (name : Option Name) (S : S
       obtain ⟨rfl, rfl⟩ := h
       rcases addDisjNode_spec _ _ _ _ _ _ hr with ⟨rfl, hl⟩ | ⟨rfl, hf⟩
       · exact .reuse i c2 rfl rfl hl hsem
-      · exact .fresh c2 rfl hf hsem
+      · exact .fresh c2 rfl hf hsem hsub
     · generalize hr : S.addDisjNode c2 name false = r at h
       obtain ⟨S1, i⟩ := r
       simp only [Except.ok.injEq, Prod.mk.injEq] at h
       obtain ⟨rfl, rfl⟩ := h
       rcases addDisjNode_spec _ _ _ _ _ _ hr with ⟨rfl, hl⟩ | ⟨rfl, hf⟩
       · exact .reuse i c2 rfl rfl hl hsem
-      · exact .fresh c2 rfl hf hsem
+      · exact .fresh c2 rfl hf hsem hsub
 
 theorem singleChild_spec (S : Store) (c : Key) (name : Option Name) (S' : Store) (k : Key) (b : Bool)
     (h : singleChild S c name = (some (S', k), b)) :
@@ -261,28 +263,31 @@ theorem addCompound_cres (S : Store) (kind : Kind) (content : List Key) (readonl
       rw [if_pos ht] at h
       simp only [Except.ok.injEq, Prod.mk.injEq] at h
       obtain ⟨rfl, rfl⟩ := h
-      refine .const rfl fun ρ => (sem_t kind ρ content ?_).symm
+      refine .const rfl (fun ρ => (sem_t kind ρ content ?_).symm) (Or.inl rfl)
       simpa using ht
     · rw [if_neg ht] at h
       dsimp only at h
       have hsem : ∀ ρ, kind.sem (if S.opts.keepDuplicates then content.filter (· != kind.f)
           else dedup (content.filter (· != kind.f))) ρ = kind.sem content ρ :=
         fun ρ => sem_congr_mem kind ρ _ _ (mem_c2 kind _ content)
+      have hsub : ∀ x ∈ (if S.opts.keepDuplicates then content.filter (· != kind.f)
+          else dedup (content.filter (· != kind.f))), x ∈ content :=
+        fun x hx => ((mem_c2 kind _ content x).1 hx).1
       generalize (if S.opts.keepDuplicates then content.filter (· != kind.f)
-          else dedup (content.filter (· != kind.f))) = c2 at h hsem
+          else dedup (content.filter (· != kind.f))) = c2 at h hsem hsub
       by_cases he : (c2.isEmpty && !placeholder) = true
       · rw [if_pos he] at h
         simp only [Except.ok.injEq, Prod.mk.injEq] at h
         obtain ⟨rfl, rfl⟩ := h
         simp only [Bool.and_eq_true, List.isEmpty_iff] at he
         obtain ⟨rfl, _⟩ := he
-        exact .const rfl fun ρ => by rw [← hsem ρ, sem_nil]
+        exact .const rfl (fun ρ => by rw [← hsem ρ, sem_nil]) (Or.inr (Or.inl rfl))
       · rw [if_neg he] at h
         by_cases ho : hasOpp c2 = true
         · rw [if_pos ho] at h
           simp only [Except.ok.injEq, Prod.mk.injEq] at h
           obtain ⟨rfl, rfl⟩ := h
-          exact .const rfl fun ρ => by rw [← hsem ρ, sem_hasOpp kind ρ c2 ho]
+          exact .const rfl (fun ρ => by rw [← hsem ρ, sem_hasOpp kind ρ c2 ho]) (Or.inl rfl)
         · rw [if_neg ho] at h
           split at h
           · rename_i c
@@ -293,12 +298,12 @@ theorem addCompound_cres (S : Store) (kind : Kind) (content : List Key) (readonl
               obtain ⟨rfl, hS⟩ := singleChild_spec S c name _ _ _ hs
               have hk : ∀ ρ, keyVal ρ k = kind.sem content ρ := fun ρ => by rw [← hsem ρ, sem_single]
               rcases hS with rfl | ⟨n, rfl, rfl⟩
-              · exact .const rfl hk
-              · exact .named n rfl rfl hk
-            · exact finishC_spec _ _ _ _ _ _ _ _ _ hsem h
-          · exact finishC_spec _ _ _ _ _ _ _ _ _ hsem h
+              · exact .const rfl hk (Or.inr (Or.inr (hsub _ List.mem_cons_self)))
+              · exact .named n rfl rfl hk (hsub _ List.mem_cons_self)
+            · exact finishC_spec _ _ _ _ _ _ _ _ _ hsem hsub h
+          · exact finishC_spec _ _ _ _ _ _ _ _ _ hsem hsub h
   · rw [if_neg h2] at h
-    exact finishC_spec _ _ _ _ _ _ _ _ _ (fun _ => rfl) h
+    exact finishC_spec _ _ _ _ _ _ _ _ _ (fun _ => rfl) (fun _ hx => hx) h
 
 theorem addCompound_error {S : Store} {kind : Kind} {content : List Key} {readonly : Bool}
     {name : Option Name} {placeholder : Bool} {compact : Option Bool} {e : Err}
@@ -343,24 +348,24 @@ theorem addCompound_error {S : Store} {kind : Kind} {content : List Key} {readon
 
 theorem CRes.wf {S kind content name S' k} (h : CRes S kind content name S' k) (hw : WF S) : WF S' := by
   cases h with
-  | const h1 _ => subst h1; exact hw
-  | named n _ h2 _ => subst h2; exact addName_wf hw _ _ _ _
+  | const h1 _ _ => subst h1; exact hw
+  | named n _ h2 _ _ => subst h2; exact addName_wf hw _ _ _ _
   | reuse i c2 h1 _ _ _ => subst h1; exact hw
-  | fresh c2 _ hf _ => exact hf.wf hw
+  | fresh c2 _ hf _ _ => exact hf.wf hw
 
 theorem CRes.grows {S kind content name S' k} (h : CRes S kind content name S' k) : Grows S S' := by
   cases h with
-  | const h1 _ => subst h1; exact Grows.refl _
-  | named n _ h2 _ => subst h2; exact addName_grows _ _ _ _ _
+  | const h1 _ _ => subst h1; exact Grows.refl _
+  | named n _ h2 _ _ => subst h2; exact addName_grows _ _ _ _ _
   | reuse i c2 h1 _ _ _ => subst h1; exact Grows.refl _
-  | fresh c2 _ hf _ => exact hf.grows
+  | fresh c2 _ hf _ _ => exact hf.grows
 
 theorem CRes.opts {S kind content name S' k} (h : CRes S kind content name S' k) : S'.opts = S.opts := by
   cases h with
-  | const h1 _ => subst h1; rfl
-  | named n _ h2 _ => subst h2; exact (addName_spec _ _ _ _ _).2.2.2.2
+  | const h1 _ _ => subst h1; rfl
+  | named n _ h2 _ _ => subst h2; exact (addName_spec _ _ _ _ _).2.2.2.2
   | reuse i c2 h1 _ _ _ => subst h1; rfl
-  | fresh c2 _ hf _ => exact hf.opts
+  | fresh c2 _ hf _ _ => exact hf.opts
 
 theorem idx_get {S : Store} (hw : WF S) (kind : Kind) (c2 : List Key) (i : Nat)
     (h : lookup (kind.idx S) c2 = some i) : 1 ≤ i ∧ ∃ nm, S.nodes[i - 1]? = some (kind.mk c2 nm) := by
@@ -377,15 +382,15 @@ theorem consistent_mk {S : Store} {ρ : Nat → Bool} (hc : Consistent S ρ) (ki
 theorem CRes.sem {S kind content name S' k} (h : CRes S kind content name S' k) (hw : WF S)
     (ρ : Nat → Bool) (hc : Consistent S' ρ) : keyVal ρ k = kind.sem content ρ := by
   cases h with
-  | const _ h2 => exact h2 ρ
-  | named n _ _ h3 => exact h3 ρ
+  | const _ h2 _ => exact h2 ρ
+  | named n _ _ h3 _ => exact h3 ρ
   | reuse i c2 h1 h2 h3 h4 =>
     subst h1; subst h2
     obtain ⟨hi, nm, hn⟩ := idx_get hw kind c2 i h3
     rw [keyVal_pos ρ i hi, ← h4 ρ]
     have := consistent_mk hc kind c2 nm (i - 1) hn
     rwa [Nat.sub_add_cancel hi] at this
-  | fresh c2 h1 hf h4 =>
+  | fresh c2 h1 hf h4 _ =>
     subst h1
     rw [keyVal_pos ρ _ (by omega), ← h4 ρ]
     exact consistent_mk hc kind c2 name S.nodes.length hf.get
